@@ -541,6 +541,12 @@ func cmdCheck(args []string) int {
 			samples = append(samples, r)
 		}
 	}
+	if n := len(e.specLint); n > 0 {
+		notes = append(notes, fmt.Sprintf("%d contracts speak about the new value of a stable ghost without listing it in modifies: listed implicitly (first: %s)", n, e.specLint[0]))
+	}
+	if r := atomic.LoadInt32(&e.retries); r > 0 {
+		notes = append(notes, fmt.Sprintf("%d obligation(s) got no answer within %d s and were retried with a long limit", r, e.timeoutS))
+	}
 	meta := propMeta[*prop]
 	cov := map[string]interface{}{
 		"obligations":              nObl,
